@@ -68,18 +68,30 @@ WaitIsLongestRemaining ==
 UnknownWaitOnlyWithoutCause ==
   (~V.permitted /\ ~V.waitKnown) <=> (peers = 0 \/ ~synced)
 
-\* the scale lemma: a vector written as units*U + small offset has the same verdict at U = 16 and U = 2^60,
-\* and the waits correspond under the same decomposition
+(* The scale lemma.  TLC evaluates Verdict / Parallel at U = 16 on vectors written as units*16 + small offset  *)
+(* (offsets -1..1, the threshold also 8*16-1 = MaxDur and -8*16 = MinDur); the harness runs the code on the     *)
+(* vector units*2^60 + the same offsets.  The verdicts carry over because every operation of the specification    *)
+(* is a difference, a comparison or the cap, and these commute with the change of unit:                            *)
 At(U, u, e) == u * U + e
-V16 == Verdict(U16, peers, synced, At(U16, nu, ne), [f \in Fields |-> At(U16, tu[f], te[f])], At(U16, hu, he))
-V60 == Verdict(U60, peers, synced, At(U60, nu, ne), [f \in Fields |-> At(U60, tu[f], te[f])], At(U60, hu, he))
-ScaleLemma ==
-  /\ V16.permitted = V60.permitted /\ V16.waitKnown = V60.waitKnown
-  /\ V16.waitKnown =>
-       LET a == (V16.wait + 8) \div 16
-           b == V16.wait - 16 * a IN
-       V60.wait = At(U60, a, b)
-ScaleLemmaParallel ==
-  Parallel(At(U16, nu, ne), At(U16, tu["synced"], te["synced"]), At(U16, tu["created"], te["created"]), At(U16, hu, he))
-    <=> Parallel(At(U60, nu, ne), At(U60, tu["synced"], te["synced"]), At(U60, tu["created"], te["created"]), At(U60, hu, he))
+n16 == At(U16, nu, ne)
+n60 == At(U60, nu, ne)
+h16 == At(U16, hu, he)
+h60 == At(U60, hu, he)
+t16(f) == At(U16, tu[f], te[f])
+t60(f) == At(U60, tu[f], te[f])
+\* (1) a timestamp blocks at one scale iff it blocks at the other (also covers Parallel's two comparisons)
+ScaleBlocking ==
+  \A f \in Fields : ((n16 - t16(f) < h16) <=> (n60 - t60(f) < h60))
+                    /\ \A g \in Fields : (t16(f) >= t16(g)) <=> (t60(f) >= t60(g))
+\* (2) the order of the remaining times is the same, so the same timestamp is the longest remaining one
+ScaleOrder ==
+  \A f, g \in Fields : (Remaining(n16, t16(f), h16) <= Remaining(n16, t16(g), h16))
+                          <=> (Remaining(n60, t60(f), h60) <= Remaining(n60, t60(g), h60))
+\* (3) the capped remaining time at U = 16, decomposed as a*16 + b with -8 <= b < 8, is a*2^60 + b at U = 2^60
+ScaleCap ==
+  \A f \in Fields :
+    LET w16 == Cap(U16, Remaining(n16, t16(f), h16))
+        a == (w16 + 8) \div 16
+        b == w16 - 16 * a IN
+    w16 > 0 => Cap(U60, Remaining(n60, t60(f), h60)) = At(U60, a, b)
 =============================================================================
